@@ -5,7 +5,7 @@ import ast
 from typing import Optional
 
 from ..core import AnalysisError, FuncInfo, Project, attr_chain, const_int, const_str, expand, unparse, walk_local
-from ..absint import PyRaise, Unknown
+from ..absint import MiniInterp, PyRaise, Sym, Unknown
 from ..order import list_value_order
 from ..intdec import (CAT_NAMES, SPEC_CUTS, LengthFacts, category, closure_int_literals, fmt_regions, literals_compared,
                       regions, residual, residual_multi, sample_points, reachable_int_literals)
@@ -253,6 +253,22 @@ def observe(prj, fi: FuncInfo, kind: str, v: int, subj_is_length: bool):
     raise Unknown(f"no evaluation harness for {kind}")
 
 
+_INT_LITS: dict = {}
+
+
+def project_int_literals(prj) -> set:
+    """every integer literal written anywhere in the package (candidate cut points of a table-driven classification)"""
+    key = id(prj)
+    if key not in _INT_LITS:
+        out = set()
+        for m in prj.modules.values():
+            for n in ast.walk(m.tree):
+                if isinstance(n, ast.Constant) and isinstance(n.value, int) and not isinstance(n.value, bool):
+                    out.add(n.value)
+        _INT_LITS[key] = out
+    return _INT_LITS[key]
+
+
 def check_site(ctx, prj, fi: FuncInfo, facts: LengthFacts, spec: dict, consts=None, inst: str = ""):
     pred = facts.subject_pred(fi)
     lab0 = _labeller(spec["label"], pred)
@@ -273,8 +289,16 @@ def check_site(ctx, prj, fi: FuncInfo, facts: LengthFacts, spec: dict, consts=No
         return lab0(tree, v)
     lits = sorted(set(literals_compared(fi, pred, consts)) | reachable_int_literals(fi, pred) | closure_int_literals(prj, fi))
     key = fi.qual.split(":", 1)[1] + (f"<-{inst}" if inst else "")
-    if not lits and consts is None and spec["label"] == "kept" and fi.qual == "codelimit.commands.check:check_file":
-        lits = [15, 30, 60]      # the decision is evaluated (observe): probe around the specification's boundaries
+    evaluable = consts is None and (spec["label"] in ("cells", "colour", "retsym", "counters", "sym") or
+                                    spec["label"] == "kept" and fi.qual == "codelimit.commands.check:check_file")
+    if not lits and evaluable:
+        # no comparison with a literal is visible at the site (the category comes from a table, an enum, bisect ...): the decision
+        # is evaluated (observe) around the specification's own boundaries and around every integer literal of the modules involved
+        try:
+            observe(prj, fi, spec["label"], 31, subj_is_length)
+            lits = sorted({15, 30, 60} | {v for v in project_int_literals(prj) if 2 <= v <= 200})
+        except (Unknown, PyRaise):
+            lits = []
     if not lits:
         d = _delegates_to(prj, fi, facts)
         if d:
@@ -463,10 +487,75 @@ def generic_site(ctx, prj, fi: FuncInfo, facts: LengthFacts, consts=None, inst="
 # R2: alarm decision in check_command
 # ----------------------------------------------------------------------------
 
+def rule_R2_evaluated(ctx, prj: Project) -> bool:
+    """the 18-row truth table by evaluation: check_command interpreted on one file of a virtual tree whose measuring step yields
+    `hard` functions of 45 and `unm` functions of 90 lines (and one of 7); exit status and whether anything is printed are observed"""
+    from .. import walk_eval as W
+    from ..evalsite import deep_strs, measurement
+    from ..fsmodel import PathV
+    fi = prj.func("codelimit.commands.check:check_command")
+    rows = []
+    for quiet in (False, True):
+        for hard in (0, 1, 2):
+            for unm in (0, 1, 2):
+                lab = W.Lab(prj, W.ROOT, deep=True)
+                lab.measured = [measurement(7, "small")] + [measurement(45, f"h{i}") for i in range(hard)] + [measurement(90, f"u{i}") for i in range(unm)]
+                code = "no typer.Exit raised"
+                try:
+                    it = MiniInterp(prj, lab.hook, max_steps=400000, max_depth=60)
+                    lab.interp = it
+                    it.call(fi, [[PathV("a.py")], quiet], {})
+                except PyRaise as e:
+                    if e.name != "Exit":
+                        raise Unknown(f"check_command raises {e.name}")
+                    v = getattr(e, "value", None)
+                    code = v.fields.get("code", 0) if isinstance(v, Sym) else None
+                    if not isinstance(code, int):
+                        raise Unknown(f"exit status {code!r}")
+                printed = [t for name, aa, kw in lab.effects.effects if name.split(".")[-1] in ("print", "echo", "secho", "log") for t in deep_strs(list(aa))] + \
+                          [t for aa, kw in lab.printed for t in deep_strs(list(aa))] + ["<call>" for aa, kw in lab.printed if not aa]
+                printed = [t for t in printed if isinstance(t, str)]
+                rows.append((quiet, hard, unm, code, bool(printed)))
+    bad_exit = bad_report = None
+    for quiet, hard, unm, code, reported in rows:
+        row = f"quiet={quiet} hard={hard} unm={unm}"
+        want_code = 1 if unm > 0 else 0
+        want_rep = (not quiet) or hard > 0 or unm > 0
+        ctx.obligations += 2
+        if code != want_code:
+            bad_exit = bad_exit or (row, code, want_code)
+        else:
+            ctx.discharged += 1
+        if reported != want_rep:
+            bad_report = bad_report or (row, reported, want_rep)
+        else:
+            ctx.discharged += 1
+        ctx.instances.setdefault("R2", []).append(dict(site=fi.site(), what=f"{row} -> exit {code}, output {reported}",
+                                                       verdict="ok" if (code == want_code and reported == want_rep) else "violation"))
+    if bad_exit:
+        row, got, want = bad_exit
+        ctx.viol("R2", "check_command/exit-status", fi.site(), f"for {row} the exit status is {got}, required {want}")
+    if bad_report:
+        row, got, want = bad_report
+        ctx.viol("R2", "check_command/report-guard", fi.site(), f"for {row} check {'prints a report' if got else 'prints nothing'}, "
+                 f"required {'a report' if want else 'nothing'} (quiet prints nothing exactly when nothing needs refactoring)")
+    if not bad_exit and not bad_report:
+        ctx.lines.append(f"OK rule=R2 site={fi.site()} construct=check_command rows={len(rows)} (evaluated)")
+    return True
+
+
 def rule_R2(ctx, prj: Project):
     ctx.rule("R2", "check exits 1 exactly when unmaintainable >= 1 (else 0), always through typer.Exit, and prints "
                    "its report exactly when not quiet or hard_to_maintain > 0 or unmaintainable > 0 "
-                   "(18-row truth table on the folded function)", floor=18)
+                   "(18-row truth table: check_command evaluated on a file with the given numbers of long functions; "
+                   "folding of the function as the fallback)", floor=18)
+    try:
+        if rule_R2_evaluated(ctx, prj):
+            return
+    except (Unknown, PyRaise) as e:
+        ctx.info(f"R2: check_command not evaluable ({type(e).__name__}: {e}); the function is folded instead")
+        ctx.instances["R2"] = []
+        ctx.violations[:] = [v for v in ctx.violations if v.rule != "R2"]
     fi = prj.func("codelimit.commands.check:check_command")
     if "quiet" not in fi.params():
         raise AnalysisError("check_command has no 'quiet' parameter any more")
